@@ -25,6 +25,11 @@ def alphabet(world, prop):
         ev.append(('REQ', t, '__all__'))
     if prop in ('C02', 'C05'):
         ev.append(('REQ', world.order[0], 'T2'))
+    if prop in ('C01', 'C03', 'C04'):
+        # a timer event becomes due for the first / last algorithm (queued by the real schedule.defer)
+        ev.append(('TIMER', world.order[0]))
+        if len(world.order) > 1:
+            ev.append(('TIMER', world.order[-1]))
     ev.append(('DISPATCH', 2))
     if prop == 'C03':
         ev.append(('DISPATCH', 0))
@@ -208,6 +213,9 @@ def hist_body(shape, prop, k, sel, drain=None, wkw=None):
             elif ev[0] == 'REQ':
                 rt.note(f'REQ {ev[1]} {ev[2]}')
                 w.request(ev[1], [ev[2]])
+            elif ev[0] == 'TIMER':
+                rt.note(f'TIMER {ev[1]}')
+                w.timer(ev[1])
             else:
                 rt.note(f'DISPATCH +{ev[1]}w')
                 del w.released[:]
